@@ -714,7 +714,19 @@ func rulePXGroupRender(c *Ctx) []Obligation {
 			case e.Kind == "call" && e.Fn == items:
 				itemsEv = e
 				nItems++
-				if len(e.Args) < 3 || e.Args[0].String() != "recv" || e.Args[1].String() != "p0" || e.Args[2].String() != "p1" {
+				// the group itself, the File and the writer of this render — as separate arguments or
+				// packed into a context value
+				leaves := map[string]bool{}
+				for _, a := range e.Args {
+					if a.Op == "struct" {
+						for _, fv := range a.Fields {
+							leaves[fv.String()] = true
+						}
+					} else {
+						leaves[a.String()] = true
+					}
+				}
+				if !(leaves["recv"] && leaves["p0"] && leaves["p1"]) {
 					t.note("items are rendered with the same group, File and writer", false, "path %s calls the list renderer with %v", traceOf(p), e.Args)
 				}
 			case e.Kind == "call" && e.Fn == prev && prev != nil:
@@ -940,11 +952,78 @@ type listSpec struct {
 	dictGuard  bool
 	boolResult bool
 	ctxArg     string // expected third argument of the item render call ("" = don't care)
+	file       string // term of the File in this function ("p0" by default)
+	writer     string // term of the writer ("p1" by default)
+}
+
+// ctxTerms: under which terms a function sees the File, the writer and the Group it renders — as
+// parameters, or as fields of a small context struct it is handed (receiver or parameter).
+func (c *Ctx) ctxTerms(f *ssa.Function) (file, writer, group string) {
+	name := func(i int) string {
+		if f.Signature.Recv() != nil {
+			if i == 0 {
+				return "recv"
+			}
+			return fmt.Sprintf("p%d", i-1)
+		}
+		return fmt.Sprintf("p%d", i)
+	}
+	classify := func(t types.Type) string {
+		switch {
+		case types.TypeString(t, shortQual) == "*jen.File":
+			return "file"
+		case isWriterType(t):
+			return "writer"
+		case types.TypeString(t, shortQual) == "*jen.Group":
+			return "group"
+		}
+		return ""
+	}
+	set := func(kind, term string) {
+		switch kind {
+		case "file":
+			if file == "" {
+				file = term
+			}
+		case "writer":
+			if writer == "" {
+				writer = term
+			}
+		case "group":
+			if group == "" {
+				group = term
+			}
+		}
+	}
+	for i, prm := range f.Params {
+		if k := classify(prm.Type()); k != "" {
+			set(k, name(i))
+			continue
+		}
+		t := prm.Type()
+		if pt, ok := t.Underlying().(*types.Pointer); ok {
+			t = pt.Elem()
+		}
+		if st, ok := t.Underlying().(*types.Struct); ok {
+			for j := 0; j < st.NumFields(); j++ {
+				if k := classify(st.Field(j).Type()); k != "" {
+					set(k, name(i)+"."+st.Field(j).Name())
+				}
+			}
+		}
+	}
+	return
 }
 
 func (c *Ctx) checkListPaths(o *obs, f *ssa.Function, sp listSpec) {
 	fn := fname(f)
 	reg := c.registerFn()
+	if sp.file == "" {
+		sp.file = "p0"
+	}
+	if sp.writer == "" {
+		sp.writer = "p1"
+	}
 	paths, trunc := c.Paths(f, PXConfig{SkipErrEdges: true, Opaque: c.stdOpaque(), MaxVisits: 4, MaxIndex: 3, MaxDepth: 3, MaxPaths: 200000})
 	if trunc || len(paths) == 0 {
 		o.undecided(fn, "path enumeration", f.Pos(), "%d paths, truncated %v", len(paths), trunc)
@@ -1007,7 +1086,7 @@ func (c *Ctx) checkListPaths(o *obs, f *ssa.Function, sp listSpec) {
 				e := &p.Events[ev]
 				ev++
 				if e.Kind == "write" {
-					if e.Writer.String() != "p1" {
+					if e.Writer.String() != sp.writer {
 						okStream, why = false, "write to "+e.Writer.String()
 					}
 					for _, sg := range e.Segs {
@@ -1086,7 +1165,7 @@ func (c *Ctx) checkListPaths(o *obs, f *ssa.Function, sp listSpec) {
 				okStream, why = false, fmt.Sprintf("before live item %d (an item was rendered before: %v) the path writes %s", k, rendered, segsString(w))
 				break
 			}
-			if len(hit.Args) >= 2 && (hit.Args[0].String() != "p0" || hit.Args[1].String() != "p1" || (sp.ctxArg != "" && len(hit.Args) >= 3 && hit.Args[2].String() != sp.ctxArg)) {
+			if len(hit.Args) >= 2 && (hit.Args[0].String() != sp.file || hit.Args[1].String() != sp.writer || (sp.ctxArg != "" && len(hit.Args) >= 3 && hit.Args[2].String() != sp.ctxArg)) {
 				okStream, why = false, fmt.Sprintf("item %d is rendered with arguments %v", k, hit.Args)
 			}
 			rendered = true
@@ -1143,7 +1222,7 @@ func (c *Ctx) checkListPaths(o *obs, f *ssa.Function, sp listSpec) {
 				for i, e := range p.Events {
 					if e.Kind == "call" && e.Fn == reg && len(e.Args) == 2 && strings.Contains(e.Args[1].String(), item(k)) {
 						regAt = i
-						if e.Args[0].String() != "p0" || e.Args[1].String() != "assert<string>("+tk+".content)" {
+						if e.Args[0].String() != sp.file || e.Args[1].String() != "assert<string>("+tk+".content)" {
 							okReg, whyR = false, fmt.Sprintf("registration for item %d with arguments %v", k, e.Args)
 						}
 					}
@@ -1200,7 +1279,11 @@ func rulePXRenderItems(c *Ctx) []Obligation {
 		o.undecided("(*jen.Group).renderItems", "anchor", token.NoPos, "anchor lost: no *Group method (File, io.Writer) (bool, error) rendering the items")
 		return o.list
 	}
-	c.checkListPaths(o, f, listSpec{list: "recv.items", sepTerm: "recv.separator", multiAtom: "recv.multi", register: true, dictGuard: true, boolResult: true})
+	file, writer, group := c.ctxTerms(f)
+	if group == "" {
+		group = "recv"
+	}
+	c.checkListPaths(o, f, listSpec{list: group + ".items", sepTerm: group + ".separator", multiAtom: group + ".multi", register: true, dictGuard: true, boolResult: true, file: file, writer: writer})
 	return o.list
 }
 
